@@ -71,3 +71,25 @@ def walk(node):
     yield node
     for _, _, c in child_nodes(node):
         yield from walk(c)
+
+
+def rebuild(x, fn):
+    """Copy a tree bottom-up through the node constructors; fn(node_copy) may return a replacement."""
+    if isinstance(x, Node):
+        kw = {}
+        for f in dataclasses.fields(x):
+            v = getattr(x, f.name)
+            if f.name == 'loc':
+                kw['loc'] = None
+            elif isinstance(v, Node):
+                kw[f.name] = rebuild(v, fn)
+            elif isinstance(v, tuple):
+                kw[f.name] = tuple(rebuild(i, fn) if isinstance(i, Node) else i for i in v)
+            elif isinstance(v, list):
+                kw[f.name] = [rebuild(i, fn) if isinstance(i, Node) else i for i in v]
+            else:
+                kw[f.name] = v
+        n = type(x)(**kw)
+        r = fn(n)
+        return n if r is None else r
+    return x
